@@ -112,17 +112,19 @@ for c in (3, 4):
                         cfg = '%s.am%d.mk%d.ng%d.uk%d' % (FTN[ft], am, mk, ng, uk)
                         always = (ft, am, mk, ng, uk) in ((1, 0, 0, 0, 0), (3, 1, 1, 1, 1))
                         d = ob('C06.row.c%d.%s' % (c, cfg), ['C06'], 'merge_ska_array/filter', 'frow_c%d_%s_am%d_mk%d_ng%d_uk%d' % (c, FTN[ft], am, mk, ng, uk), tier='thorough',
-                               functions=FILTF, inst='u64', needs_parts=['merge_ska_array/common'], caps={'ACAP': c, 'SCAP': c, 'MCAP': 1}, models=['ndarray', 'hashbrown'],
+                               functions=FILTF, inst='u64', needs_parts=['merge_ska_array/common'], caps={'RCAP': 1, 'CCAP': c, 'SCAP': c, 'MCAP': 1}, models=['ndarray', 'hashbrown'],
                                sym='one row of %d symbols over the 16 stored symbols, min_count 0..=%d' % (c, c + 1), oracle='row kept iff count >= max(1,min_count) and site predicate (from the property text); kept row shows stored bases, ambiguity codes as N under mask',
                                bounds='1 row x %d samples; flags concrete: filter=%s ambig-as-missing=%d mask=%d no-gap-only=%d update-kmers=%d' % (c, FTN[ft], am, mk, ng, uk), timeout=1500, mem_gb=10)
+                        if ft == 0:
+                            d['dead_witnesses'] = ['a row is dropped by the site filter']
                         if c == 3:
                             d['quick_sample'] = {'family': 'C06.row', 'pick': 16, 'always': always}
 for (nm, fn) in [('noconst', 'filter2_noconst_plain'), ('noconst.uk', 'filter2_noconst_uk'), ('nofilter.am.uk', 'filter2_nofilter_am_uk'), ('noambig.mask', 'filter2_noambig_mask'),
                  ('noambigorconst.all', 'filter2_noambigorconst_all'), ('noconst.ng', 'filter2_noconst_ng'), ('noambigorconst', 'filter2_noambigorconst_plain'), ('nofilter.mask.uk', 'filter2_nofilter_mask_uk')]:
     ob('C06.align.' + nm, ['C06'], 'merge_ska_array/filter', fn, tier='quick' if nm in ('noconst.uk', 'noambigorconst.all') else 'thorough', functions=FILTF, inst='u64', needs_parts=['merge_ska_array/common'],
-       caps={'ACAP': 6, 'SCAP': 3, 'MCAP': 1}, models=['ndarray', 'hashbrown'], sym='2 rows x 3 symbols over the 16 stored symbols, min_count 0..=3',
-       oracle='kept rows keep their order; k-mers (when updated), variants and counts stay row-aligned; removed count', bounds='2 rows x 3 samples, flags: ' + nm, timeout=2400, mem_gb=12)
-ob('C06.cnt', ['C06', 'C10'], 'merge_ska_array/filter', 'update_counts_2x3', functions=[MA + 'update_counts'], inst='u64', needs_parts=['merge_ska_array/common'], caps={'ACAP': 6, 'SCAP': 3, 'MCAP': 1}, models=['ndarray'],
+       caps={'RCAP': 2, 'CCAP': 3, 'SCAP': 3, 'MCAP': 1}, models=['ndarray', 'hashbrown'], sym='2 rows x 3 symbols over the 16 stored symbols, min_count 0..=3',
+       oracle='kept rows keep their order; k-mers (when updated), variants and counts stay row-aligned; removed count', bounds='2 rows x 3 samples, flags: ' + nm, timeout=3600, mem_gb=24, mem_expect_gb=10)
+ob('C06.cnt', ['C06', 'C10'], 'merge_ska_array/filter', 'update_counts_2x3', functions=[MA + 'update_counts'], inst='u64', needs_parts=['merge_ska_array/common'], caps={'RCAP': 2, 'CCAP': 3, 'SCAP': 3, 'MCAP': 1}, models=['ndarray'],
    sym='2 rows x 3 symbols, stale counts, both counting modes', oracle='counts recomputed, empty rows removed, k-mers aligned', bounds='2x3', timeout=1200, mem_gb=10)
 
 # ------------------------------------------------------------------ C04 AlnWriter (inductive)
@@ -147,39 +149,40 @@ for (nm, fn) in [('h2.10.two', 'aln_hist_h2_10_two'), ('h2.10.one_rep', 'aln_his
 
 # ------------------------------------------------------------------ C01.acc
 SD = 'src/ska_dict.rs::SkaDict::'
-ob('C01.acc', ['C01', 'C02', 'C15'], 'ska_dict/acc', 'acc_one_kmer', functions=[SD + 'add_to_dict', BE + 'IUPAC', BE + 'decode_base'], inst='u64', caps={'MCAP': 2, 'SCAP': 1, 'ACAP': 1}, models=['hashbrown'],
+ob('C01.acc', ['C01', 'C02', 'C15'], 'ska_dict/acc', 'acc_one_kmer', functions=[SD + 'add_to_dict', BE + 'IUPAC', BE + 'decode_base'], inst='u64', caps={'MCAP': 2, 'SCAP': 1, 'RCAP': 1, 'CCAP': 1}, models=['hashbrown'],
    sym='1..=4 observed middle bases of one split k-mer, interleaved with one observation of another k-mer', oracle='exactly one entry per k-mer; stored byte = IUPAC code of the set of bases seen (order/multiplicity independent)',
    bounds='<= 4 observations (every subset of {A,C,G,T} in every order)', timeout=900, mem_gb=8)
-ob('C01.acc.pal', ['C01', 'C15'], 'ska_dict/acc', 'acc_palindrome', functions=[SD + 'add_palindrome_to_dict'], inst='u64', caps={'MCAP': 2, 'SCAP': 1, 'ACAP': 1}, models=['hashbrown'],
+ob('C01.acc.pal', ['C01', 'C15'], 'ska_dict/acc', 'acc_palindrome', functions=[SD + 'add_palindrome_to_dict'], inst='u64', caps={'MCAP': 2, 'SCAP': 1, 'RCAP': 1, 'CCAP': 1}, models=['hashbrown'],
    sym='1..=4 observed middle bases of a self-reverse-complement split k-mer', oracle='entry = code of bases seen plus complements: W, S or N', bounds='<= 4 observations', timeout=900, mem_gb=8)
 
 # ------------------------------------------------------------------ C03.new / C02.cols / C07
 MD = 'src/merge_ska_dict.rs::MergeSkaDict::'
 for (nm, fn, tier, nk, ns, tmo) in [('2x2', 'append_new_2x2', 'thorough', 2, 2, 3600), ('2x2.swapped', 'append_new_2x2_swapped', 'thorough', 2, 2, 3600), ('3x3', 'append_new_3x3', 'thorough', 3, 3, 7200), ('3x3.perm', 'append_new_3x3_perm', 'thorough', 3, 3, 7200)]:
     ob('C03.new.' + nm, ['C03', 'C02', 'C01', 'C07'], 'merge_ska_dict/append', fn, tier=tier, functions=[MD + 'new', MD + 'append', MA + 'new', MA + 'n_sample_kmers', MA + 'iter'], inst='u64',
-       needs_parts=['merge_ska_dict/common', 'ska_dict/acc', 'merge_ska_array/common'], caps={'MCAP': nk, 'SCAP': 1, 'ACAP': nk * ns}, models=['hashbrown', 'ndarray'],
+       needs_parts=['merge_ska_dict/common', 'ska_dict/acc', 'merge_ska_array/common'], caps={'MCAP': nk, 'SCAP': 1, 'RCAP': nk, 'CCAP': ns}, models=['hashbrown', 'ndarray'],
        sym='%d sample dictionaries over a %d-key universe: presence and IUPAC codes symbolic; append order %s' % (ns, nk, nm), oracle='merged entry = sample base in its own column, 0/- where absent; one row per k-mer of the union; counts; names by sample index; independent of append order',
        bounds='%d samples, %d keys' % (ns, nk), timeout=tmo, mem_gb=16, dead_witnesses=['conversion returns'])
 for m in range(16):
     ob('C03.new.2x2.p%d' % m, ['C03', 'C02', 'C01', 'C07'], 'merge_ska_dict/append', 'append_new_2x2_p%d' % m, tier='thorough', functions=[MD + 'new', MD + 'append', MA + 'new', MA + 'n_sample_kmers', MA + 'iter'], inst='u64',
-       needs_parts=['merge_ska_dict/common', 'ska_dict/acc', 'merge_ska_array/common'], caps={'MCAP': 2, 'SCAP': 1, 'ACAP': 4}, models=['hashbrown', 'ndarray'],
+       needs_parts=['merge_ska_dict/common', 'ska_dict/acc', 'merge_ska_array/common'], caps={'MCAP': 2, 'SCAP': 1, 'RCAP': 2, 'CCAP': 2}, models=['hashbrown', 'ndarray'],
        sym='2 sample dictionaries over a 2-key universe: IUPAC codes symbolic, presence pattern concrete (mask %d), append order %s' % (m, 'natural' if m % 2 == 0 else 'swapped'),
        oracle='as C03.new.2x2', bounds='2 samples, 2 keys', timeout=1200, mem_gb=10, dead_witnesses=['all k-mers present, first sample lacks one', 'a single shared or private k-mer'], quick_sample={'family': 'C03.new', 'pick': 3, 'always': m in (7, 14)})
 for n1, n2 in ((1, 2), (2, 1)):
     for p0 in range(4):
         for p1 in range(4):
             ob('C07.ext.p%d%d.n%d%d' % (p0, p1, n1, n2), ['C07'], 'merge_ska_dict/extend', 'extend_p%d%d_n%d%d' % (p0, p1, n1, n2), tier='thorough', functions=[MD + 'extend'], inst='u64',
-               needs_parts=['merge_ska_dict/common', 'ska_dict/acc'], caps={'MCAP': 2, 'SCAP': 1, 'ACAP': 1}, models=['hashbrown'],
+               needs_parts=['merge_ska_dict/common', 'ska_dict/acc'], caps={'MCAP': 2, 'SCAP': 1, 'RCAP': 1, 'CCAP': 1}, models=['hashbrown'],
                sym='two merged dictionaries with %d and %d samples over a 2-key universe; bases/missing symbolic; presence pattern concrete (key0=%d, key1=%d; 1=self 2=other 3=both)' % (n1, n2, p0, p1),
                oracle='names concatenated; for every key of the union vector = (self | 0^n1) ++ (other | 0^n2); n_samples summed; no other key', bounds='%d+%d samples, 2 keys' % (n1, n2), timeout=1500, mem_gb=12,
                quick_sample={'family': 'C07.ext', 'pick': 6, 'always': (p0, p1, n1) in ((3, 1, 1), (2, 3, 2))})
 for (nm, fn, f) in [('extend.k', 'extend_refuses_k', 'extend'), ('extend.strand', 'extend_refuses_strand', 'extend'), ('append.k', 'append_refuses_k', 'append'), ('append.strand', 'append_refuses_strand', 'append')]:
-    ob('C07.refuse.' + nm, ['C07'], 'merge_ska_dict/extend', fn, functions=[MD + f], inst='u64', needs_parts=['merge_ska_dict/common', 'ska_dict/acc'], caps={'MCAP': 2, 'SCAP': 1, 'ACAP': 1}, models=['hashbrown'],
+    ob('C07.refuse.' + nm, ['C07'], 'merge_ska_dict/extend', fn, functions=[MD + f], inst='u64', needs_parts=['merge_ska_dict/common', 'ska_dict/acc'], caps={'MCAP': 2, 'SCAP': 1, 'RCAP': 1, 'CCAP': 1}, models=['hashbrown'],
        sym='strand mode; second input differs in ' + nm.split('.')[1], oracle='the refusing panic inside %s is reachable and the statement after the call is not' % f, bounds='2 keys', timeout=900, mem_gb=8,
        expected_fail=['in function merge_ska_dict::MergeSkaDict::<u64>::' + f])
 
 # ------------------------------------------------------------------ C08 delete
-CAP23 = {'ACAP': 6, 'SCAP': 3, 'MCAP': 2}
+CAP23 = {'RCAP': 2, 'CCAP': 3, 'SCAP': 3, 'MCAP': 2}
+CAP33 = {'RCAP': 3, 'CCAP': 3, 'SCAP': 3, 'MCAP': 2}
 for (m, r) in [(1, 0), (2, 0), (4, 0), (3, 0), (5, 0), (6, 0), (3, 1), (5, 1), (6, 1)]:
     ob('C08.del.m%d%s' % (m, '.rev' if r else ''), ['C08', 'C10'], 'merge_ska_array/delete', 'delete_m%d_%s' % (m, 'rev' if r else 'fwd'), tier='quick' if (m, r) in ((2, 0), (5, 1)) else 'thorough',
        functions=[MA + 'delete_samples', MA + 'update_counts'], inst='u64', needs_parts=['merge_ska_array/common'], caps=CAP23, models=['ndarray', 'hashbrown'],
@@ -190,7 +193,7 @@ for w in ('absent', 'all', 'none'):
        sym='2 x 3 table; delete list: ' + w, oracle='the refusing panic inside delete_samples is reachable and the statement after the call is not', bounds='3 samples', timeout=900, mem_gb=8,
        expected_fail=['in function merge_ska_array::MergeSkaArray::<u64>::delete_samples'])
 # ------------------------------------------------------------------ C14 distances
-ob('C14.pair', ['C14'], 'merge_ska_array/dist', 'variant_dist_pair_r4', functions=[MA + 'variant_dist', BE + 'base_to_prob'], inst='u64', needs_parts=['merge_ska_array/common'], caps={'ACAP': 1, 'SCAP': 1, 'MCAP': 1}, models=['ndarray (ArrayView)'],
+ob('C14.pair', ['C14'], 'merge_ska_array/dist', 'variant_dist_pair_r4', functions=[MA + 'variant_dist', BE + 'base_to_prob'], inst='u64', needs_parts=['merge_ska_array/common'], caps={'RCAP': 1, 'CCAP': 1, 'SCAP': 1, 'MCAP': 1}, models=['ndarray (ArrayView)'],
    sym='two columns of 4 symbols over {A,C,G,T,-}, constant 0..=3', oracle='distance = #{both present, different}; mismatch = m/(constant+both+m), 0 if empty; in [0,1]; symmetric; identical -> (0,0)', bounds='4 k-mers', timeout=1800, mem_gb=12)
 ob('C14.all', ['C14'], 'merge_ska_array/dist', 'distance_all_pairs_2x3', functions=[MA + 'distance', MA + 'variant_dist'], inst='u64', needs_parts=['merge_ska_array/common'], caps=CAP23, models=['ndarray', 'rayon (sequential)', 'indicatif'],
    sym='2 x 3 table over {A,C,G,T,-}, constant 0..=2', oracle='row i holds pairs (i,j), j>i, each unordered pair once, values = pairwise specification', bounds='3 samples, 2 k-mers', timeout=2400, mem_gb=12)
@@ -198,7 +201,7 @@ ob('C14.all', ['C14'], 'merge_ska_array/dist', 'distance_all_pairs_2x3', functio
 ob('C07.rt', ['C07', 'C10'], 'merge_ska_array/conv', 'array_dict_roundtrip_2x3', functions=[MA + 'to_dict', MA + 'new', MD + 'build_from_array'], inst='u64', needs_parts=['merge_ska_array/common'], caps=CAP23, models=['ndarray', 'hashbrown'],
    sym='2 x 3 table over the 16 stored symbols, strand mode, stale stored count', oracle='array -> dict -> array preserves k, strand mode, names and the key -> row map; counts recomputed', bounds='2 x 3', timeout=2400, mem_gb=12)
 for r in (0, 1, 2):
-    ob('C03.fasta.%dx3' % r, ['C03', 'C06'], 'merge_ska_array/conv', 'write_fasta_%dx3' % r, tier='quick' if r == 2 else 'thorough', functions=[MA + 'write_fasta'], inst='u64', needs_parts=['merge_ska_array/common'], caps=CAP23, models=['ndarray', 'needletail::write_fasta'],
+    ob('C03.fasta.%dx3' % r, ['C03', 'C06'], 'merge_ska_array/conv', 'write_fasta_%dx3' % r, tier='quick' if r == 2 else 'thorough', functions=[MA + 'write_fasta'], inst='u64', needs_parts=['merge_ska_array/common'], caps=CAP33, models=['ndarray', 'needletail::write_fasta'],
        sym='%d rows x 3 samples over the 16 stored symbols' % r, oracle='one record per sample in input order, sequence i = column i, all of equal length', bounds='%d x 3' % r, timeout=2400, mem_gb=12)
 ob('C01.nk', ['C01'], 'merge_ska_array/conv', 'n_sample_kmers_2x3', functions=[MA + 'n_sample_kmers', MA + 'ksize', MA + 'nsamples'], inst='u64', needs_parts=['merge_ska_array/common'], caps=CAP23, models=['ndarray'],
    sym='2 x 3 table', oracle='per-sample count = number of non-gap cells in the column', bounds='2 x 3', timeout=900, mem_gb=8)
@@ -208,21 +211,21 @@ RS = 'src/ska_ref.rs::RefSka::'
 for nr in (2, 3):
     for pat in ('11', '10', '01', '00'):
         ob('C04.map%s.p%s' % ('' if nr == 2 else '3', pat), ['C04', 'C15'], 'ska_ref/map', 'map%s_p%s' % ('' if nr == 2 else '3', pat), tier='quick' if (nr == 2 and pat in ('11', '10')) else 'thorough', functions=[RS + 'map', BE + 'RC_IUPAC'], inst='u64',
-           needs_parts=['ska_ref/common', 'merge_ska_dict/common', 'ska_dict/acc'], caps={'MCAP': 2, 'SCAP': 1, 'ACAP': 2 * nr}, models=['hashbrown', 'ndarray'],
+           needs_parts=['ska_ref/common', 'merge_ska_dict/common', 'ska_dict/acc'], caps={'MCAP': 2, 'SCAP': 1, 'RCAP': nr, 'CCAP': 2}, models=['hashbrown', 'ndarray'],
            sym='%d reference k-mers with symbolic identity (3-value universe) and strand flag; dictionary of 2 keys x 2 samples with symbolic cells; key presence concrete (%s)' % (nr, pat),
            oracle='rows appended in reference order for present keys only; bases complemented iff reference k-mer is reverse strand; positions and names copied', bounds='%d reference k-mers, 2 keys, 2 samples' % nr, timeout=3600, mem_gb=20 if nr == 3 else 14,
            dead_witnesses=['all reference k-mers matched', 'single match on the reverse strand'] if pat == '00' else ['nothing matched'])
-ob('C04.map.refuse', ['C04'], 'ska_ref/map', 'map_refuses_other_k', functions=[RS + 'map'], inst='u64', needs_parts=['ska_ref/common', 'merge_ska_dict/common', 'ska_dict/acc'], caps={'MCAP': 2, 'SCAP': 1, 'ACAP': 6}, models=['hashbrown', 'ndarray'],
+ob('C04.map.refuse', ['C04'], 'ska_ref/map', 'map_refuses_other_k', functions=[RS + 'map'], inst='u64', needs_parts=['ska_ref/common', 'merge_ska_dict/common', 'ska_dict/acc'], caps={'MCAP': 2, 'SCAP': 1, 'RCAP': 1, 'CCAP': 1}, models=['hashbrown', 'ndarray'],
    sym='-', oracle='panic reachable, return not', bounds='-', timeout=900, mem_gb=8, expected_fail=['in function ska_ref::RefSka::<u64>::map'])
 # ------------------------------------------------------------------ C13.weed
 for nm in ('forward', 'reverse', 'forward_twice', 'reverse_twice'):
     ob('C13.weed.' + nm, ['C13', 'C10'], 'merge_ska_array/weed', 'weed_%s_2x2' % nm, tier='thorough' if 'twice' in nm else 'quick', functions=[MA + 'weed', RS + 'kmer_iter'], inst='u64', needs_parts=['merge_ska_array/common', 'ska_ref/common'],
-       caps={'ACAP': 4, 'SCAP': 2, 'MCAP': 1}, models=['ndarray', 'hashbrown'], sym='2 x 2 table with two different k-mers of a 3-value universe; weed list of 0..=2 values (duplicates allowed)',
+       caps={'RCAP': 2, 'CCAP': 2, 'SCAP': 2, 'MCAP': 1}, models=['ndarray', 'hashbrown'], sym='2 x 2 table with two different k-mers of a 3-value universe; weed list of 0..=2 values (duplicates allowed)',
        oracle='kept rows = rows whose k-mer is (not) in the weed set, in order, bases/counts/k-mers aligned; names unchanged; idempotent', bounds='2 k-mers, 2 samples, weed list <= 2', timeout=3600, mem_gb=16)
 
 # ------------------------------------------------------------------ generic_modes wrappers
 GM = 'src/generic_modes.rs::'
-ob('C06.thr', ['C06'], 'generic_modes/wrap', 'apply_filters_threshold_c4', functions=[GM + 'apply_filters', MA + 'filter'], inst='u64', needs_parts=['merge_ska_array/common'], caps={'ACAP': 4, 'SCAP': 1, 'MCAP': 1}, models=['ndarray'],
+ob('C06.thr', ['C06'], 'generic_modes/wrap', 'apply_filters_threshold_c4', functions=[GM + 'apply_filters', MA + 'filter'], inst='u64', needs_parts=['merge_ska_array/common'], caps={'RCAP': 1, 'CCAP': 4, 'SCAP': 1, 'MCAP': 1}, models=['ndarray'],
    sym='min_freq: any f64 in [0,1]; one row of 4 symbols over {A,C,G,T,-}', oracle='row emitted iff present in >= ceil(4 x min_freq) samples (IEEE double arithmetic, the CLI\'s own)', bounds='4 samples', timeout=1800, mem_gb=12)
 def dw_dead(c, pm, f2):
     npres = bin(pm).count('1')
@@ -242,13 +245,13 @@ for c, pats in ((2, (1, 2, 3)), (3, (1, 5, 6, 7))):
         for f2 in (0, 1, 2):
             for amb in (False, True):
                 an = 'ambig' if amb else 'noambig'
-                quick = (c, pm, f2, amb) in ((2, 2, 2, False), (2, 3, 1, False), (3, 5, 1, False), (2, 1, 2, True))
+                quick = (c, pm, f2, amb) in ((2, 2, 2, False), (2, 3, 1, False), (3, 5, 1, False), (3, 7, 2, False))
                 ob('C14.wrap.c%d.p%d.f%d.%s' % (c, pm, f2, an), ['C14'], 'generic_modes/wrap', 'dist_wrap_c%d_p%d_f%d_%s' % (c, pm, f2, an), tier='quick' if quick else 'thorough',
-                   functions=[GM + 'distance', GM + 'apply_filters', MA + 'filter', MA + 'update_counts'], inst='u64', needs_parts=['merge_ska_array/common'], caps={'ACAP': c, 'SCAP': c, 'MCAP': 1}, models=['ndarray', 'hashbrown', 'rayon (pool)'],
-                   stubs=['MergeSkaArray::distance -> recorder that compares (constant, rows) with the expectation and ends the path (environment stub)', 'io_utils::set_ostream -> in-memory sink (environment stub)'],
+                   functions=[GM + 'distance', GM + 'apply_filters', MA + 'filter', MA + 'update_counts'], inst='u64', needs_parts=['merge_ska_array/common'], caps={'RCAP': 1, 'CCAP': c, 'SCAP': c, 'MCAP': 1}, models=['ndarray', 'hashbrown', 'rayon (pool)'],
+                   stubs=['MergeSkaArray::distance -> recorder that compares (constant, rows) with the expectation and ends the path (environment stub)', 'io_utils::set_ostream -> in-memory sink (environment stub)', 'update_counts(false) -> identity on arrays with exact counts (lemma C06.cnt; noambig configurations only)'],
                    sym='one row x %d samples: bases symbolic over {A,C,G,T}, presence pattern concrete (mask %d); min_freq = %s; filter ambiguous = %s' % (c, pm, f2 / 2.0, amb),
                    oracle='recorded constant = constant sites among k-mers passing the frequency threshold; table handed on = k-mers passing it and not constant',
-                   bounds='1 k-mer, %d samples' % c, timeout=3600, mem_gb=20, mem_expect_gb=8 if amb else 5,
+                   bounds='1 k-mer, %d samples' % c, timeout=7200 if amb else 3600, mem_gb=40 if amb else 20, mem_expect_gb=30 if amb else 5,
                    dead_witnesses=dw_dead(c, pm, f2))
 
 # ------------------------------------------------------------------ C08.wrap / C13.wrap / C10.A / C05.ref
@@ -257,11 +260,11 @@ ob('C08.wrap', ['C08', 'C10'], 'generic_modes/wrap', 'delete_wrapper_2x3', funct
    bounds='3 samples, 2 k-mers', timeout=2400, mem_gb=14)
 for f10 in (0, 9):
     ob('C13.wrap.minfreq%s' % ('0' if f10 == 0 else '0.9'), ['C13', 'C10'], 'generic_modes/wrap', 'weed_wrapper_minfreq0' + ('' if f10 == 0 else '9'), functions=[GM + 'weed', MA + 'filter'], inst='u64', needs_parts=['merge_ska_array/common'], family='C13.wrap',
-       caps=CAP23 if f10 == 0 else {'ACAP': 3, 'SCAP': 3, 'MCAP': 1}, models=['ndarray', 'hashbrown'], stubs=['MergeSkaArray::save -> Ok(()) + call counter (environment stub)'], sym='2 x 3 (min_freq 0) or 1 x 3 (min_freq 0.9) table over the 16 stored symbols; no weed file; min_freq = %s; no site filter, no masks' % (f10 / 10.0),
+       caps=CAP23 if f10 == 0 else {'RCAP': 1, 'CCAP': 3, 'SCAP': 3, 'MCAP': 1}, models=['ndarray', 'hashbrown'], stubs=['MergeSkaArray::save -> Ok(()) + call counter (environment stub)'], sym='2 x 3 (min_freq 0) or 1 x 3 (min_freq 0.9) table over the 16 stored symbols; no weed file; min_freq = %s; no site filter, no masks' % (f10 / 10.0),
        oracle='threshold floor(samples x min_freq): min_freq 0 => table saved unchanged; 0.9 => k-mers below 2 of 3 samples dropped; saved exactly once', bounds='3 samples, 2 k-mers', timeout=2400, mem_gb=14)
 for (nm, fn) in [('noconst', 'c10_filter_noconst'), ('nofilter.uk', 'c10_filter_nofilter_uk'), ('noambigorconst.am', 'c10_filter_noambigorconst_am'), ('noambig', 'c10_filter_noambig')]:
     ob('C10.A.' + nm, ['C10'], 'merge_ska_array/c10', fn, tier='quick' if nm in ('noconst', 'nofilter.uk') else 'thorough', functions=[MA + 'filter', MA + 'update_counts'], inst='u64', needs_parts=['merge_ska_array/common'],
-       caps={'ACAP': 3, 'SCAP': 3, 'MCAP': 1}, models=['ndarray', 'hashbrown'], sym='one row x 3 samples over the 16 stored symbols, threshold 0..=3, arbitrary stored count 0..=3 vs the fresh-build count',
+       caps={'RCAP': 1, 'CCAP': 3, 'SCAP': 3, 'MCAP': 1}, models=['ndarray', 'hashbrown'], sym='one row x 3 samples over the 16 stored symbols, threshold 0..=3, arbitrary stored count 0..=3 vs the fresh-build count',
        oracle='identical result (emitted rows, removed count, saved table) whatever count was stored', bounds='1 k-mer, 3 samples, flags: ' + nm, timeout=2400, mem_gb=14)
 ob('C05.ref', ['C05'], 'ska_ref/vcf', 'u8_to_base_all_bytes', functions=['src/ska_ref.rs::u8_to_base'], needs_parts=['ska_ref/common'], sym='byte (256)', oracle='A/C/G/T map to themselves, everything else to N', bounds='complete domain', timeout=600, mem_gb=8)
 
@@ -269,31 +272,31 @@ ob('C05.ref', ['C05'], 'ska_ref/vcf', 'u8_to_base_all_bytes', functions=['src/sk
 BF = 'src/ska_dict/bloom_filter.rs::KmerFilter::'
 for n, tier in ((3, 'quick'), (4, 'thorough')):
     ob('C12.cnt.%d' % n, ['C12'], 'bloom_filter/cnt', 'cnt_never_lost_%d' % n, tier=tier, functions=[BF + 'filter', BF + 'bloom_add_and_check', BF + 'fingerprint', BF + 'location', SK + 'new', SK + 'get_hash'] + NTF, inst='u64',
-       caps={'MCAP': 2, 'SCAP': 1, 'ACAP': 1}, models=['hashbrown'], stubs=['KmerFilter built directly with a Bloom buffer of 4 words (init not executed)'],
+       caps={'MCAP': 2, 'SCAP': 1, 'RCAP': 1, 'CCAP': 1}, models=['hashbrown'], stubs=['KmerFilter built directly with a Bloom buffer of 4 words (init not executed)'],
        sym='%d sightings of one k-mer (each as read or reverse complement), min_count 1..=%d, strand mode, optionally one earlier sighting of an arbitrary other k-mer' % (n, n),
        oracle='never lost: Equal at or before the min_count-th sighting; exact at the min_count-th sighting when no other k-mer is in the filter', bounds='k=5, %d sightings' % n, timeout=3600, mem_gb=16)
 
 # ------------------------------------------------------------------ C04.case / C04.ref (RefSka::new through the needletail model)
 REFNEW = [RS + 'new', RS + 'track_repeats'] + WINF
 for (nm, fn, tier, tmo) in [('l6', 'ref_new_l6', 'quick', 3600), ('l7n', 'ref_new_l7_n', 'thorough', 7200)]:
-    ob('C04.case.' + nm, ['C04', 'C05', 'C13'], 'ska_ref/new', fn, tier=tier, functions=REFNEW, inst='u64', needs_parts=['ska_ref/common', 'split_kmer/common'], caps={'MCAP': 1, 'SCAP': 3, 'ACAP': 1},
+    ob('C04.case.' + nm, ['C04', 'C05', 'C13'], 'ska_ref/new', fn, tier=tier, functions=REFNEW, inst='u64', needs_parts=['ska_ref/common', 'split_kmer/common'], caps={'MCAP': 1, 'SCAP': 3, 'RCAP': 1, 'CCAP': 1},
        models=['needletail (in-memory records)', 'hashbrown', 'ndarray'], stubs=['core::str::from_utf8 -> unchecked (kani::stub)'], sym='one contig of %s bases in either case%s, strand mode' % (nm[1], ' with N' if 'n' in nm[2:] else ''),
        oracle='k-mer list = window specification with centres ascending and strand flags; stored reference is upper-case; contig name', bounds='k=5, ' + nm, timeout=tmo, mem_gb=20, mem_expect_gb=10)
 for (nm, fn) in [('5_1_6', 'ref_new_repeats_5_1_6'), ('6_0_6', 'ref_new_repeats_6_0_6')]:
-    ob('C04.ref.' + nm, ['C04', 'C13'], 'ska_ref/new', fn, tier='thorough', functions=REFNEW, inst='u64', needs_parts=['ska_ref/common', 'split_kmer/common'], caps={'MCAP': 1, 'SCAP': 4, 'ACAP': 1},
+    ob('C04.ref.' + nm, ['C04', 'C13'], 'ska_ref/new', fn, tier='thorough', functions=REFNEW, inst='u64', needs_parts=['ska_ref/common', 'split_kmer/common'], caps={'MCAP': 1, 'SCAP': 4, 'RCAP': 1, 'CCAP': 1},
        models=['needletail (in-memory records)', 'hashbrown', 'ndarray'], stubs=['core::str::from_utf8 -> unchecked (kani::stub)'], sym='three contigs (%s) of upper-case bases, single strand, repeat mask on' % nm,
        oracle='k-mer list = windows of every contig in order; repeat_coors = exactly the absolute positions within h of the centre of a split k-mer that occurs more than once', bounds='k=5, 12 bases', timeout=7200, mem_gb=28, mem_expect_gb=14)
 
 # ------------------------------------------------------------------ C11 (sequential model: merge tree and pool initialisation)
 TREEF = ['src/merge_ska_dict.rs::build_and_merge', 'src/merge_ska_dict.rs::parallel_append', 'src/merge_ska_dict.rs::multi_append', MD + 'merge', MD + 'append']
-for (n, t, tier, tmo) in [(10, 1, 'thorough', 3600), (10, 2, 'quick', 3600), (11, 16, 'thorough', 3600), (20, 4, 'thorough', 7200), (30, 4, 'thorough', 10800), (30, 16, 'thorough', 10800)]:
+for (n, t, tier, tmo) in [(10, 1, 'thorough', 3600), (10, 2, 'thorough', 3600), (11, 16, 'thorough', 3600), (20, 4, 'thorough', 7200), (30, 4, 'thorough', 10800), (30, 16, 'thorough', 10800)]:
     ob('C11.tree.n%d.t%d' % (n, t), ['C11'], 'merge_ska_dict/tree', 'tree_n%d_t%d' % (n, t), tier=tier, functions=TREEF, inst='u64', needs_parts=['merge_ska_dict/common', 'ska_dict/acc'],
-       caps={'MCAP': 2, 'SCAP': 1, 'ACAP': 1}, models=['hashbrown', 'rayon (sequential join, pool flag)', 'indicatif'], stubs=['SkaDict::new -> dictionary provider: one symbolic (k-mer, base) entry per sample (environment stub)'],
+       caps={'MCAP': 2, 'SCAP': 1, 'RCAP': 1, 'CCAP': 1}, models=['hashbrown', 'rayon (sequential join, pool flag)', 'indicatif'], stubs=['SkaDict::new -> dictionary provider: one symbolic (k-mer, base) entry per sample (environment stub)'],
        sym='%d samples, each with one k-mer of a 2-key universe and a symbolic base; strand mode; threads = %d' % (n, t), oracle='names in input order; every key vector = the serial table (own base in own column, 0 elsewhere)',
        bounds='%d samples, threads=%d (merge depth %s)' % (n, t, {(10, 1): 0, (10, 2): 1, (11, 16): 1, (20, 4): 1, (30, 4): 2, (30, 16): 2}[(n, t)]), timeout=tmo, mem_gb=24, mem_expect_gb=10)
 
 for t in (1, 2):
     ob('C11.pool.map.t%d' % t, ['C11'], 'ska_ref/pool', 'map_after_build_t%d' % t, functions=['src/merge_ska_dict.rs::build_and_merge', RS + 'pseudoalignment', AW + 'write_split_kmer', AW + 'finalise'], inst='u64',
-       needs_parts=['ska_ref/common'], caps={'MCAP': 2, 'SCAP': 1, 'ACAP': 2}, models=['hashbrown', 'ndarray', 'rayon (sequential; build_global fails the second time)', 'needletail::write_fasta'],
+       needs_parts=['ska_ref/common'], caps={'MCAP': 2, 'SCAP': 1, 'RCAP': 1, 'CCAP': 2}, models=['hashbrown', 'ndarray', 'rayon (sequential; build_global fails the second time)', 'needletail::write_fasta'],
        stubs=['SkaDict::new -> dictionary provider (environment stub)', 'AlnWriter::write_split_kmer / finalise -> no-op (environment stub)'], sym='reference of 6 symbolic bases; two samples sharing the reference k-mer (concrete middle bases); threads = %d' % t,
        oracle='the build -> (mapped state) -> pseudoalignment sequence completes (no panic) with one aligned sequence per sample', bounds='reference of 6 bases, k=5, 2 samples', timeout=3600, mem_gb=20, mem_expect_gb=8)
